@@ -6,6 +6,7 @@ package textgen
 import (
 	"fmt"
 	"reflect"
+	"regexp"
 	"sort"
 	"strconv"
 	"strings"
@@ -44,9 +45,20 @@ func StrBytes(s string) string {
 
 // Printable lists the non-ASCII runes of the given strings that
 // unicode.IsPrint accepts (the model's IsPrint table for the case).
+var uEscape = regexp.MustCompile(`\\u[0-9a-fA-F]{4}|\\U[0-9a-fA-F]{8}`)
+
 func Printable(ss ...string) string {
 	seen := map[rune]bool{}
 	var parts []string
+	// runes written as \uNNNN / \UNNNNNNNN escapes reach the scanner again when a quoted element
+	// is itself parsed as a collection (nested slices, slices of sets): include them
+	for _, s := range ss {
+		for _, m := range uEscape.FindAllString(s, -1) {
+			if v, err := strconv.ParseUint(m[2:], 16, 32); err == nil && utf8.ValidRune(rune(v)) {
+				ss = append(ss, string(rune(v)))
+			}
+		}
+	}
 	for _, s := range ss {
 		for _, r := range s {
 			if r >= 128 && !seen[r] && unicode.IsPrint(r) {
